@@ -43,8 +43,25 @@ def main(tier, replay=None):
     rng = random.Random(run.seed)
     ns = dates.quick_days() if quick else list(range(2, dates.LAST + 1))
     size = 2500 if quick else 20000
-    obs = dates.run_parallel(_days_chunk, [ns[i:i + size] for i in range(0, len(ns), size)])
+    CH = 100000
+    count = [0]
+    keep = []
+
+    def judge(part, label):
+        # one segment at a time: the observations of the whole sweep together took over 20 GB
+        for o in part:
+            count[0] += 1
+            o['id'] = count[0]
+        v = core.validate_obs(run, 'Trace_Date', part, label)
+        core.tally(run, part, v, 'c13', key=lambda o: o['kind'] + json.dumps(o['in'], sort_keys=True))
+        if len(keep) < 2:
+            keep.append(part[min(100, len(part) - 1)])
+
+    for k in range(0, len(ns), CH):
+        seg = ns[k:k + CH]
+        judge(dates.run_parallel(_days_chunk, [seg[i:i + size] for i in range(0, len(seg), size)]), 'd%d' % (k // CH))
     run.extra['days_swept'] = len(ns)
+    part = []
     for _ in range(12000 if quick else 400000):
         y = rng.choice([1900, 1900, 1901, rng.randint(1900, 2100), rng.randint(1900, 9999)])
         mo, d = rng.randint(1, 12), rng.randint(1, 28)
@@ -52,14 +69,13 @@ def main(tier, replay=None):
                          1000 * rng.randint(0, 86399), 1000 * rng.randint(0, 86399), rng.randint(1, 999)])   # whole seconds, first second of a day
         if (y, mo, d, ms) == (9999, 12, 28, 86399999):
             continue
-        obs.append(dates.instant_obs(p, y, mo, d, ms))
-    for n, o in enumerate(obs, 1):
-        o['id'] = n
-    CH = 100000
-    for k in range(0, len(obs), CH):
-        part = obs[k:k + CH]
-        v = core.validate_obs(run, 'Trace_Date', part, 'p%d' % (k // CH))
-        core.tally(run, part, v, 'c13', key=lambda o: o['kind'] + json.dumps(o['in'], sort_keys=True))
+        part.append(dates.instant_obs(p, y, mo, d, ms))
+        if len(part) >= CH:
+            judge(part, 'i%d' % count[0])
+            part = []
+    if part:
+        judge(part, 'i%d' % count[0])
+        keep.append(part[-1])
     run.exhaustive = not quick
-    run.samples = [obs[100], obs[-1]]
+    run.samples = keep[:3]
     return run.finish()
